@@ -6,6 +6,7 @@ CONSTANTS
   BinOps <- MC_OpsArith
   Maps <- MC_MapsFew
   OnePairs <- MC_PairsFew
+  Routes = {}
   MaxUnits = 5
   MinUnits = 0
   MaxDepth = 1
